@@ -65,6 +65,7 @@ RULES = [
  ('used area is a single cell can be resolved', 'C05', 'unbounded-range-clipped-to-a-single-cell (1x1 used area: AssertionError)'),
  ('freezes to convergence when iterative', 'C08', 'iterative/frozen-circular-block-not-converged/range (block read through a range frozen after one sweep)'),
  ('array formula which produces a reference', 'C05', 'real-workbook/value-depends-on-order-or-access-path/* (lookup.xlsx Offset!F43:I45 {=OFFSET(...)}: range address gave AddressRange objects, members gave values)'),
+ ('left half built by a failed build', 'C01', 'stale-value + stale-value/xlsx-stored-result-of-cell-built-after-write (cell built before a failed build kept its stored result; its precedents were built after a write)'),
  ('an array and an error value', 'C13', 'array-formula-member-not-pointwise/array-with-error-valued-scalar'),
 ]
 
